@@ -238,7 +238,7 @@ func TestC03(t *testing.T) {
 	vcore.Run(t, "C03", rapid.Custom(func(t *rapid.T) Case { return GenHistory(t, c03Params) }), checkC03)
 }
 
-var c10Params = &HistoryParams{MinOps: 15, MaxOps: 50, Cloud: 2, CloudFail: true, Lag: true, Episodes: true,
+var c10Params = &HistoryParams{MinOps: 15, MaxOps: 50, Cloud: 2, CloudFail: true, Lag: true, Episodes: true, Ranges: true,
 	Weights: map[string]int{"create": 18, "delete": 14, "sched": 20, "phase": 6, "deliver": 12, "unbind": 12, "drop": 1, "reserve": 0,
 		"unreserve": 0, "fipevent": 0, "apirelease": 4, "restart": 1, "resync": 6},
 	Kinds: []string{"sts", "sts", "dp", "cr", "bare", "dppool"}}
